@@ -51,7 +51,12 @@ def run(R):
               "keyword pass-through; via lsq_linear and via ReceptorEstimator.fit; the performance option batch_size drawn from "
               "{1, 2, 3, 4 (padded last batch), 'full'} (rows of a jointly solved batch are independent: theorem "
               "ExtrasA.stacked_objective_sum, so every row is still certified on its own, with per-source bounds that differ "
-              "between sources), six targets per call or one single-row call; targets, per-sample weights, bounds and the "
+              "between sources), six targets per call or one single-row call; in three fifths of the six-row calls targets repeat (a pair of rows, mostly a "
+              "non-reproducible target, or all six rows ask for the same target) while every row keeps its own per-sample weights and is certified for them; "
+              "per-sample weights also through ReceptorEstimator.register_targets(B, W=W) + fit(); a third mode 'limited' passes a deliberately small "
+              "iteration limit through the keyword pass-through (max_iter=1..25 for the default solver, solver=OSQP/CLARABEL with max_iter=1..100): the fit "
+              "must either raise (counted) or return an answer that satisfies the default-accuracy predicates and certificates -- never an unconverged iterate "
+              "(rows the solver itself declares optimal_inaccurate under the caller's limit are counted and only judged for the prediction identity); targets, per-sample weights, bounds and the "
               "capture matrix handed in as C-ordered / Fortran-ordered / strided arrays or lists (the model sees values only; "
               "arguments must be unchanged afterwards). Histories: two thirds of the calls are preceded, in the same process (on the same "
               "estimator object when the judged fit goes through one), by an earlier legitimate fit of the same system -- coarse "
@@ -78,6 +83,21 @@ def run(R):
             j = int(rng2.integers(len(kinds)))
             B = B[j:j + 1].copy(); kinds_s = [kinds[j]]
         nrow = len(kinds_s)
+        # stimulus sets repeat targets (frames of a flicker, repeated trials, the background between flashes): a pair of rows, or all
+        # rows, ask for the same target; with per-sample weights every row still has its own weights and therefore its own optimum
+        # when the target is not reproducible. (own stream again)
+        rep = "none"
+        if nrow > 1:
+            rep = str(rng2.choice(["none", "none", "pair", "pair", "all"]))
+            if rep == "pair":
+                i_, j_ = [int(v) for v in rng2.permutation(nrow)[:2]]
+                if rng2.random() < 0.6:
+                    i_ = int(rng2.choice([3, 4, 5]))          # the repeated target is mostly one that is not reproducible
+                    j_ = int(rng2.choice([v for v in range(nrow) if v != i_]))
+                B[j_] = B[i_]; kinds_s[j_] = kinds_s[i_]
+            elif rep == "all":
+                i_ = int(rng2.choice([0, 1, 2, 3, 3, 4, 4, 5, 5]))
+                B = np.tile(B[i_], (nrow, 1)); kinds_s = [kinds_s[i_]] * nrow
         if wk == "none":
             W = None; Wrows = np.ones((nrow, nf))
         elif wk == "vector":
@@ -85,13 +105,20 @@ def run(R):
         else:
             W = dyadic(rng, 0.5, 2, 2, size=(nrow, nf)); Wrows = W
         via = ("estimator" if si % 6 == 0 else "estimator_internal") if (si % 3 == 0 and wk != "per_sample") else "lsq_linear"
-        for mode in ("default", "high"):
+        if si % 3 == 0 and wk == "per_sample":
+            via = "estimator_targets"        # per-sample weights through the estimator: register_targets(B, W=W), fit()
+        # a deliberately small iteration limit through the keyword pass-through (own stream), see mode 'limited' below
+        rngl = R.rng(6, si)
+        LIM = [dict(max_iter=int(rngl.choice([1, 2, 5, 10, 25]))), dict(solver="OSQP", max_iter=int(rngl.choice([1, 2, 5, 10, 25, 100]))),
+               dict(solver="CLARABEL", max_iter=int(rngl.choice([1, 2, 3, 5, 8])))][int(rngl.integers(3))]
+        for mode in ("default", "high", "limited"):
             k = "s%d:%s" % (si, mode)
             if not R.want(k):
                 continue
-            kw = dict(HIGH) if mode == "high" else {}
+            kw = dict(HIGH) if mode == "high" else (dict(LIM) if mode == "limited" else {})
+            mi = ("default", "high", "limited").index(mode)
             # batch size is a pure performance setting (C05); rows solved jointly are certified row by row
-            rngm = R.rng(3, si, 0 if mode == "default" else 1)
+            rngm = R.rng(3, si, mi)
             bs = [1, 1, 2, 3, 4, "full"][int(rngm.integers(6))]
             if bs != 1:
                 kw["batch_size"] = bs
@@ -108,7 +135,7 @@ def run(R):
             # excitation), other bounds -- all through the documented interfaces. Nothing is asserted about the earlier fit
             # (it may even stop at its iteration limit and raise); the judged call is an independent problem and is held to
             # the same predicates as without a history. Drawn from its own stream: systems and targets are unchanged.
-            rngh = R.rng(4, si, 0 if mode == "default" else 1)
+            rngh = R.rng(4, si, mi)
             force = PRIOR_KINDS[(si // 3) % len(PRIOR_KINDS)] if si % 3 == 0 else None
             if force == "excitation" and mode != "default":
                 force = "poisson"       # (the quasi-convex bisection takes about a second per row: one excitation fit per 15 systems)
@@ -121,7 +148,7 @@ def run(R):
 
                 def impl(*watched):
                     est = dreye.ReceptorEstimator(filt, domain=1.0, K=(1.0 if S["K"] is None else S["K"]), baseline=S["baseline"],
-                                                  w=(1.0 if Wg is None else Wg), sources=src, lb=lbg, ub=ubg)
+                                                  w=(1.0 if (Wg is None or np.ndim(Wg) == 2) else Wg), sources=src, lb=lbg, ub=ubg)
                     if prior["kind"] != "none":
                         if "ub" in prior:
                             est.register_bounds(lb=prior["lb"].copy(), ub=prior["ub"].copy())
@@ -130,6 +157,10 @@ def run(R):
                             est.register_bounds(lb=lbg, ub=ubg)
                     if via == "estimator":
                         return est.fit(Bg, **kw)
+                    if via == "estimator_targets":
+                        est.register_targets(Bg, W=Wg)
+                        est.fit(**kw)
+                        return est.X, est.B
                     # history: other targets with per-sample weights were registered (and fitted) before
                     est.register_targets(B[::-1] * 0.5 + 1.0, W=np.linspace(0.5, 2.0, B.size).reshape(B.shape))
                     est.fit(**kw)
@@ -157,7 +188,7 @@ def run(R):
                 elif e["event"] == "batch":
                     for i in range(int(e["start"]), min(int(e["stop"]), nrow)):
                         statuses[i] = last
-            c = dict(k=k, via=via, mode=mode, nf=nf, ns=ns, A=S["A"], K=S["K"], K_kind=S["K_kind"], baseline=S["baseline"],
+            c = dict(k=k, via=via, mode=mode, solver_options=(dict(LIM) if mode == "limited" else None), repeated_targets=rep, nf=nf, ns=ns, A=S["A"], K=S["K"], K_kind=S["K_kind"], baseline=S["baseline"],
                      baseline_kind=S["baseline_kind"], lb=S["lb"], ub=S["ub"], W=W, W_kind=wk, B=B, target_kinds=kinds_s, cond=S["cond"],
                      batch_size=bs, n_rows=nrow, earlier_fit=dict(kind=prior["kind"], model=prior.get("model"), options=prior.get("kw"), B=prior.get("B"),
                                                                   lb=prior.get("lb"), ub=prior.get("ub")))
@@ -165,12 +196,24 @@ def run(R):
                 R.count("%s:%s" % (key, c[key]))
             R.count("ub:" + S["ub_kind"]); R.count("lb:" + S["lb_kind"])
             R.count("batch_size:%s" % bs); R.count("rows_per_call:%d" % nrow)
+            R.count("repeated-targets:%s:W=%s" % (rep, wk))
+            if mode == "limited":
+                R.count("iteration-limit:%s" % ",".join("%s=%s" % kv for kv in sorted(LIM.items())))
             nbatch = nrow if bs == "full" else bs
             R.count("joint-batch-with-unequal-bounds:%s" % bool(min(nbatch, nrow) >= 2 and (len(set(S["lb"].tolist())) > 1 or len(set(S["ub"].tolist())) > 1)))
             R.count("shape:%s" % ("under" if ns > nf else ("exact" if ns == nf else "over")))
-            if st == "runtime" and mode == "high":
-                R.count("high-accuracy-solver-did-not-converge"); R.case(c, None)
+            if st in ("runtime", "other:SolverError") and mode == "high":
+                # (cvxpy reports a numerical failure of the solver at tolerances of 1e-12 as SolverError, the library a missing
+                # solution as RuntimeError: both are loud, and the property promises an error-free return for the default fit only)
+                R.count("high-accuracy-solver-did-not-converge" + ("" if st == "runtime" else ":SolverError")); R.case(c, None)
                 continue
+            if mode == "limited":
+                # a fit that cannot finish within the caller's iteration limit has to say so (raise); an answer that is returned is
+                # held to the same predicates as the default fit -- never a silently unconverged iterate
+                R.count("iteration-limit:outcome:%s" % ("answer returned (judged like the default fit)" if st == "ok" else ("raised " + st)))
+                if st in ("runtime", "other:SolverError"):
+                    R.case(c, None)
+                    continue
             if st != "ok":
                 R.case(c, None)
                 # which rows make it fail? (search for the failing input: each row alone)
@@ -193,7 +236,7 @@ def run(R):
         c = r["case"]; S = r["S"]
         kcase = c["k"]
         mode = r["mode"]
-        tolc, tolb = (2e-2, 1e-2) if mode == "default" else (2e-3, 1e-6)
+        tolc, tolb = (2e-3, 1e-6) if mode == "high" else (2e-2, 1e-2)
         wmax = float(np.max(np.abs(r["w"])))
         lb, ub, xhat = r["lb"], r["ub"], r["xhat"]
         rngb = np.where(np.isfinite(ub), ub - lb, 1.0)
@@ -204,8 +247,15 @@ def run(R):
         nontriv = (kcase, r["row"]) if (active or (r["fstar"] is not None and r["fstar"] > 0) or S["ns"] > S["nf"]) else None
         R.case(info, nontriv, sample=(nontriv is not None and r["row"] == 3))
         R.count("target:" + r["kind"]); R.count("status:%s" % r["status"])
+        # under a caller-imposed iteration limit the solver itself may declare its answer inaccurate (status optimal_inaccurate: its
+        # reduced tolerances were met when the limit was reached). The property states accuracies for the default settings and for a
+        # high-accuracy solver only; such rows are counted and judged for the prediction identity only. Every other returned row
+        # (status optimal -- or any status that is not a solution) is judged like the default fit.
+        declared_inaccurate = mode == "limited" and r["status"] == "optimal_inaccurate"
+        if mode == "limited":
+            R.count("iteration-limit:returned-row:%s" % ("solver-declared inaccurate (prediction identity only)" if declared_inaccurate else "judged like the default fit"))
         # bounds
-        if np.any(xhat < lb - tolb * rngb) or np.any(xhat > ub + tolb * rngb):
+        if (not declared_inaccurate) and (np.any(xhat < lb - tolb * rngb) or np.any(xhat > ub + tolb * rngb)):
             R.failB(info, "intensities %s violate the bounds by more than %g of the range" % (xhat.tolist(), tolb), sig + ":bounds")
         # prediction is the model's capture of the returned intensities
         pm = [F(v) for v in np.zeros(0)]
@@ -215,6 +265,8 @@ def run(R):
             R.failB(dict(info, model_prediction=[rs(v) for v in pred_model]), "returned prediction %s is not the model's capture %s of the returned intensities"
                     % (np.asarray(r["bpred"]).tolist(), [float(v) for v in pred_model]), sig + ":pred-mismatch")
         # optimality
+        if declared_inaccurate:
+            continue
         ehat = fsqrt(r["fhat"])
         if r["kkt_ok"]:
             estar = fsqrt(r["fstar"])
